@@ -204,15 +204,23 @@ def scenario_key(sc):
     return json.dumps(c, sort_keys=True)
 
 
-def generate(d, module, cfg, num, depth, seed, timeout=600):
-    """TLC -simulate with GenExport: returns the list of raw TLC scenarios (dedup'd)"""
+def generate(d, module, cfg, num, depth, seed, timeout=600, exhaustive=False):
+    """TLC with GenExport: returns the list of raw TLC scenarios (dedup'd).
+    default: -simulate (seeded random behaviours); exhaustive=True: breadth-first over ALL behaviours of the
+    configuration (hist is part of the state, so every complete behaviour is exported once) - used with small
+    menus to cover every short operation sequence"""
     os.makedirs(os.path.join(d, "gen"), exist_ok=True)
     for f in glob.glob(os.path.join(d, "gen", "*.json")):
         os.remove(f)
-    rc, out, dt = tlc(d, module, cfg, extra=["-simulate", "num=%d" % num, "-depth", str(depth), "-seed", str(seed)],
-                      workers=1, timeout=timeout)
-    if "Error:" in out and "The number of states generated" not in out:
-        raise Inconclusive("scenario generation failed:\n" + out[-3000:])
+    if exhaustive:
+        rc, out, dt = tlc(d, module, cfg, workers=1, timeout=timeout)
+        if tlc_failed(out):
+            raise Inconclusive("scenario enumeration failed:\n" + out[-3000:])
+    else:
+        rc, out, dt = tlc(d, module, cfg, extra=["-simulate", "num=%d" % num, "-depth", str(depth), "-seed", str(seed)],
+                          workers=1, timeout=timeout)
+        if "Error:" in out and "The number of states generated" not in out:
+            raise Inconclusive("scenario generation failed:\n" + out[-3000:])
     raws, seen = [], set()
     for f in sorted(glob.glob(os.path.join(d, "gen", "*.json")), key=lambda x: int(re.findall(r"s(\d+)\.json", x)[0])):
         js = json.load(open(f))
